@@ -191,8 +191,9 @@ Aggregate == /\ IsSel(q) /\ ~Aggregated(q) /\ ~q.distinct /\ steps < MaxSteps
                 \E gs \in Pick({ << >> } \cup G1 \cup { g \in G2 : g[1] # g[2] }) :
                 \E a1 \in Pick(AggExprs(h)) : \E as2 \in Pick({ << >> } \cup { <<a>> : a \in A2 }) :
                 \E showkeys \in Pick({"all", "first", "none", "shadow"}) :
+                \E noagg \in Pick({FALSE, FALSE, TRUE}) :       \* sometimes a GROUP BY without any aggregate (only its keys)
                    LET ng == Len(gs)
-                       as == <<a1>> \o as2
+                       as == IF noagg /\ ng > 0 /\ showkeys \in {"all", "first"} THEN << >> ELSE <<a1>> \o as2
                        \* "shadow": the key is an unqualified integer column and the item shown is a non-injective expression
                        \* of it under the column's own name (SELECT (a * 0) AS a .. GROUP BY a): GROUP BY still means the column
                        shadowable == ng > 0 /\ gs[1].k = "col" /\ gs[1].q = "" /\ \E i \in IntCols(h) : h[i].n = gs[1].n
@@ -266,8 +267,11 @@ Join == /\ Plain(q) /\ q.from.k \in {"tab", "sub", "join"} /\ steps < MaxSteps
                   SameTy(c) == \A i \in 1..Len(L) : \A j \in 1..Len(R) : (L[i].n = c /\ R[j].n = c) => L[i].ty = R[j].ty
                   usable == \A c \in Range(common) : Cardinality({ i \in 1..Len(L) : L[i].n = c }) = 1 /\ SameTy(c)
                   AliasFree == al \notin AliasesF(q.from)
+                  \* (RelAlg pads the rows an outer join keeps with the integer NULL; an AVG column is a record there:
+                  \*  outer joins are not generated over inputs that carry one)
+                  NoReal == \A i \in 1..Len(L) : L[i].ty # "real"
               IN /\ AliasFree
-                 /\ \E kind \in Pick(JoinKinds) :
+                 /\ \E kind \in Pick(IF NoReal THEN JoinKinds ELSE {"inner", "cross"}) :
                        \/ /\ kind # "cross"
                           /\ \E on \in Pick(ons) :
                                 Step(SelectAll([k |-> "join", kind |-> kind, l |-> q.from, r |-> rt, on |-> on,
